@@ -59,6 +59,10 @@ def cases(tier, seed, phase):
         rng = rng_for(seed, 'c04s', j)
         yield {'kind': 'scanwrite', 'nbefore': rng.choice([0, 1, 3]), 'nwrites': rng.choice([1, 2, 3]), 'scan_at': rng.choice(['env', 'env', 'meta', 'both']),
                'then_crash': rng.random() < 0.5}
+    for j in range(24 if tier == 'quick' else 400):
+        rng = rng_for(seed, 'c04f', j)
+        yield {'kind': 'writefail', 'op': rng.choice(['t', 'i', 'd']), 'fail_at': rng.choice(['chunk', 'chunk2', 'rename']),
+               'how': rng.choice(['oserror', 'oserror', 'kill']), 'nmsg': rng.choice([1, 2, 3])}
     n = 90 if tier == 'quick' else 1500
     for j in range(n):
         def mk(j=j):
@@ -253,7 +257,89 @@ def run_scanwrite(case, model):
     return CaseResult(None, hits, ('scanwrite', case['nbefore'], case['nwrites'], case['scan_at']), ['scan-during-write'])
 
 
+def run_writefail(case, model):
+    """A rewrite of the meta file of an acknowledged message fails half-way with an exception (the disk is full, the greenlet is
+    killed) instead of the process dying. The message must still be there afterwards, in its old or its new state."""
+    import gevent
+    import slimta.diskstorage as ds
+    from slimta.diskstorage import DiskStorage
+    root = tempfile.mkdtemp(prefix='verif_c04f_')
+    hits = []
+    real_wp, real_rename, real_chunk = ds.AioFile._write_piece, ds.os.rename, ds.AioFile.chunk_size
+    try:
+        for d in ('env', 'meta', 'tmp'):
+            os.mkdir(os.path.join(root, d))
+        st = DiskStorage(os.path.join(root, 'env'), os.path.join(root, 'meta'), os.path.join(root, 'tmp'))
+        ids = [st.write(make_env(k, 3), 1000.0 + k) for k in range(case['nmsg'])]
+        ds.AioFile.chunk_size = 20
+        armed = {'on': True, 'n': 0}
+
+        def boom():
+            if case['how'] == 'kill':
+                raise gevent.GreenletExit()
+            raise OSError(28, 'No space left on device')
+
+        def wp(self, fd, data, data_len, offset):
+            if armed['on']:
+                armed['n'] += 1
+                if (case['fail_at'] == 'chunk' and armed['n'] == 1) or (case['fail_at'] == 'chunk2' and armed['n'] == 2):
+                    armed['on'] = False
+                    boom()
+            return real_wp(self, fd, data, data_len, offset)
+
+        class OsProxy(object):
+            def __getattr__(self, name):
+                return getattr(os, name)
+
+            def rename(self, a, b):
+                if armed['on'] and case['fail_at'] == 'rename':
+                    armed['on'] = False
+                    boom()
+                return real_rename(a, b)
+        ds.AioFile._write_piece = wp
+        saved_os = ds.os
+        ds.os = OsProxy()
+        target = ids[0]
+
+        def op():
+            if case['op'] == 't':
+                st.set_timestamp(target, 2000.0)
+            elif case['op'] == 'i':
+                st.increment_attempts(target)
+            else:
+                st.set_recipients_delivered(target, [1])
+        g = gevent.spawn(op)
+        g.join(3)
+        ds.os = saved_os
+        ds.AioFile._write_piece = real_wp
+        files = {}
+        for d in ('env', 'meta'):
+            for fn in os.listdir(os.path.join(root, d)):
+                with open(os.path.join(root, d, fn), 'rb') as f:
+                    files[d + '/' + fn] = f.read()
+        got, problems = reopen(files)
+        for p in problems:
+            hits.append(hit('c04.recovery-raises', 'reopening the directories failed', observed=p))
+        for k, sid in enumerate(ids):
+            gv = got.get(sid)
+            if gv is None:
+                hits.append(hit('c04.acknowledged-message-missing', 'an acknowledged message is gone after an update of its meta file failed with an exception',
+                                observed={'message': k, 'op': case['op'], 'fail_at': case['fail_at'], 'how': case['how']}))
+                break
+            old = (1000 + k, 0, [0, 1, 2])
+            new = {'t': (2000, 0, [0, 1, 2]), 'i': (1000 + k, 1, [0, 1, 2]), 'd': (1000 + k, 0, [0, 2])}[case['op']] if k == 0 else old
+            if (gv['ts'], gv['att'], gv['rcpts']) not in (old, new) or gv['e'] != k or not gv['body_ok']:
+                hits.append(hit('c04.recovered-state-wrong', 'recovered message is neither the old nor the new state', observed={'message': k, 'got': gv}, expected=[old, new]))
+                break
+    finally:
+        ds.AioFile._write_piece, ds.AioFile.chunk_size = real_wp, real_chunk
+        shutil.rmtree(root, ignore_errors=True)
+    return CaseResult(None, hits, ('writefail', case['op'], case['fail_at'], case['how'], case['nmsg']), ['meta-update-fails'])
+
+
 def run_case(case, model):
+    if case.get('kind') == 'writefail':
+        return run_writefail(case, model)
     if case.get('kind') == 'scanwrite':
         return run_scanwrite(case, model)
     import gevent
